@@ -113,6 +113,7 @@ def check(ctx, rep):
              "or acts on a path of shape root + accepted selector + safe suffix (R01b, R01h)", floor=20)
     rep.rule("R01g", "percent-decoding appears only in protocol handle() before handler selection; none in handlers/", floor=4)
     rep.rule("R01i", "handlers that hand getfspath() to real-file APIs reject non-real VFS objects", floor=3)
+    rep.rule("R01k", "a NUL byte is answered like any missing file: the stat on the unfiltered selector also catches ValueError", floor=2)
     rep.rule("R01j", "arguments of eval/exec/compile/__import__ have configuration provenance only", floor=5)
 
     if base is None or filt_func is None:
@@ -409,6 +410,11 @@ def check(ctx, rep):
     from .c16 import vfs_gate_obligations
 
     vfs_gate_obligations(ctx, rep, "R01i", eff)
+
+    # ------------------------------------------------------------------ R01k
+    from .c03 import pregate_stat_obligations
+
+    pregate_stat_obligations(ctx, rep, "R01k", eff)
 
     # ------------------------------------------------------------------ R01j
     dq = ShapeDomain(prog, eff, base)
